@@ -293,7 +293,7 @@ def handshake_case(ctx, rng, cipher, mac, kex, rekey):
 def run(ctx):
     rng = ctx.rng
     KdfContract(ctx)
-    direct_cases(ctx, ctx.pick(12000, 150000))
+    direct_cases(ctx, ctx.pick(12000, 60000))
     suites = pb.offered_suites()
     kexes = [k for k in KEXES if k in Transport._kex_info]
     # (b) threadless benches: every suite, both roles
